@@ -383,6 +383,12 @@ func (c *cluster) start() error {
 	return nil
 }
 
+func (c *cluster) note(k string) {
+	c.mu.Lock()
+	c.notes[k]++
+	c.mu.Unlock()
+}
+
 func (c *cluster) liveHost() *host {
 	for tries := 0; tries < 10; tries++ {
 		h := c.hosts[c.rnd.Intn(len(c.hosts))]
@@ -486,10 +492,10 @@ func (c *cluster) checkCompleted(timeout time.Duration) {
 				}
 			}
 			if err != nil {
-				c.notes["reads_failed"]++
+				c.note("reads_failed")
 				continue
 			}
-			c.notes["reads_checked"]++
+			c.note("reads_checked")
 			if !seen {
 				// attribute it to the replica that served the read
 				k := key{s, uint64(h.rec.id)}
@@ -513,7 +519,7 @@ func (c *cluster) transferLeader() {
 	}
 	target := lid%3 + 1
 	_ = h.nh.RequestLeaderTransfer(s, target)
-	c.notes["leader_transfers"]++
+	c.note("leader_transfers")
 }
 
 // crash host i at a sampled synchronous event boundary (power cut: everything not
@@ -532,7 +538,7 @@ func (c *cluster) crashRestart(i int, within int, restartNow bool) error {
 	}()
 	select {
 	case <-r.crashedC:
-		c.notes["crashes"]++
+		c.note("crashes")
 	case <-time.After(3 * time.Second):
 		// boundary not reached (idle host): crash at the current boundary instead
 		r.mu.Lock()
@@ -542,7 +548,7 @@ func (c *cluster) crashRestart(i int, within int, restartNow bool) error {
 			r.boundary()
 		}
 		r.mu.Unlock()
-		c.notes["crashes_forced"]++
+		c.note("crashes_forced")
 	}
 	<-done
 	h.nh.Close()
@@ -588,6 +594,7 @@ func (c *cluster) restartHost(i int) error {
 			return fmt.Errorf("ReadRaftState %s: %v", k, err)
 		}
 		e := event{kind: 'C', k: k, rec: img}
+		inflightFound := false
 		r.mu.Lock()
 		if u, ok := r.cut[k]; ok {
 			// a save of another step worker was in progress at the crash instant: it is
@@ -604,14 +611,17 @@ func (c *cluster) restartHost(i int) error {
 				if probe2.badCode == 0 {
 					r.events = append(r.events, pe)
 					r.rep(k).step(pe)
-					c.notes["inflight_saves_found_durable"]++
+					inflightFound = true
 				}
 			}
 		}
 		r.events = append(r.events, e)
 		r.rep(k).step(e)
 		r.mu.Unlock()
-		c.notes["recoveries_compared"]++
+		if inflightFound {
+			c.note("inflight_saves_found_durable")
+		}
+		c.note("recoveries_compared")
 	}
 	var err error
 	p := vh.Catch(func() { err = c.startReplicas(i, true) })
@@ -623,7 +633,7 @@ func (c *cluster) restartHost(i int) error {
 			r.events = append(r.events, event{kind: 'F', k: key{s, uint64(i + 1)}, index: 0})
 		}
 		r.mu.Unlock()
-		c.notes["restart_failed"]++
+		c.note("restart_failed")
 		return errAborted
 	}
 	return nil
